@@ -686,6 +686,7 @@ func runC04(w *W) {
 	w.World.PoolFreshPct = pickInt(t, "knob.poolfresh", 20, 0, 100)
 	so := tgenOpts{MaxStructs: 1 + t.Intn(3, "sch.structs"), MaxFields: 2 + t.Intn(6, "sch.fields"), MaxDepth: 1 + t.Intn(3, "sch.depth"),
 		BigIDs: t.Chance(1, 3, "sch.bigids"), Recursive: t.Chance(1, 3, "sch.rec"), Requiredness: false, SharedNames: t.Chance(1, 2, "sch.sharednames")}
+	so.ZeroID = t.Chance(1, 3, "sch.zeroid")
 	sch := genSchema(t, so)
 	rootDesc := parseThrift(w, sch, thrift.Options{})
 	c := &c04{w: w, sch: sch, rootT: sch.Root, rootD: rootDesc}
